@@ -123,6 +123,62 @@ func checkC15(p *ana.Prog, r *ana.Result) {
 			}
 		}
 	}
+	if !assign {
+		// the assignment may follow the removal at a distance (the removal in a helper that returns
+		// the path): a store of the matched element - possibly merged with nil for "not found" - into
+		// a slice other than the candidates, passed on every path from the match to the next client
+		var assigns []ssa.Instruction
+		ana.Instrs(fn, func(in ssa.Instruction) {
+			st, ok := in.(*ssa.Store)
+			if !ok {
+				return
+			}
+			ia, ok := st.Addr.(*ssa.IndexAddr)
+			if !ok || isPsLoad(ia.X) {
+				return
+			}
+			good := st.Val == elem
+			if ph, isPhi := st.Val.(*ssa.Phi); isPhi {
+				n := 0
+				good = true
+				for _, e := range ph.Edges {
+					switch {
+					case e == elem:
+						n++
+					case ana.IsNilConst(e):
+					default:
+						good = false
+					}
+				}
+				good = good && n > 0
+			}
+			if good && (mb == st.Block() || mb.Dominates(st.Block()) || ana.Reachable(fn, mb.Instrs[0], func(x ssa.Instruction) bool { return x == in }, nil, nil)) {
+				assigns = append(assigns, in)
+				spsSlice = ia.X
+			}
+		})
+		if len(assigns) > 0 {
+			isAssign := func(in ssa.Instruction) bool {
+				for _, a := range assigns {
+					if a == in {
+						return true
+					}
+				}
+				return false
+			}
+			s := &ana.Search{Fn: fn, Stop: isAssign, Target: func(in ssa.Instruction) bool {
+				c, ok := in.(*ssa.Call)
+				if !ok {
+					return false
+				}
+				n := ana.CalleeName(&c.Call)
+				return n == ana.Q("(*core/client.SCIONClient).InterleavedModePath") || n == ana.Q("base/crypto.Sample")
+			}}
+			if found, _ := s.Run(mb.Instrs[0]); !found {
+				assign = true
+			}
+		}
+	}
 	// the search stops after a match: the match block does not lead back into the candidate loop
 	stops := true
 	if len(mb.Succs) == 1 {
